@@ -19,8 +19,10 @@
 #include <cctype>
 #include <cstdint>
 #include <string>
+#include <type_traits>
 #include <utility>
 
+#include "runtime/cpp/emboss_bit_util.h"
 #include "runtime/cpp/emboss_defines.h"
 #include "runtime/cpp/emboss_view_parameters.h"
 
@@ -59,12 +61,12 @@ class EnumView final {
   // TODO(bolms): Here and in CouldWriteValue(), the static_casts to ValueType
   // rely on implementation-defined behavior when ValueType is signed.
   ValueType Read() const {
-    ValueType result = static_cast<ValueType>(buffer_.ReadUInt());
+    ValueType result = ConvertToEnum(buffer_.ReadUInt());
     EMBOSS_CHECK(Parameters::ValueIsOk(result));
     return result;
   }
   ValueType UncheckedRead() const {
-    return static_cast<ValueType>(buffer_.UncheckedReadUInt());
+    return ConvertToEnum(buffer_.UncheckedReadUInt());
   }
   void Write(ValueType value) const {
     const bool result = TryToWrite(value);
@@ -74,7 +76,9 @@ class EnumView final {
   bool TryToWrite(ValueType value) const {
     if (!CouldWriteValue(value)) return false;
     if (!IsComplete()) return false;
-    buffer_.WriteUInt(static_cast<typename BitViewType::ValueType>(value));
+    buffer_.WriteUInt(::emboss::support::MaskToNBits(
+        static_cast<typename BitViewType::ValueType>(value),
+        Parameters::kBits));
     return true;
   }
   static constexpr bool CouldWriteValue(ValueType value) {
@@ -88,19 +92,28 @@ class EnumView final {
     //
     // b1) the field size is large enough to hold all values, or
     // b2) the value is less than 2**(field size in bits)
-    return value == static_cast<ValueType>(
-                        static_cast<typename BitViewType::ValueType>(value)) &&
-           ((Parameters::kBits ==
-             sizeof(typename BitViewType::ValueType) * 8) ||
-            (static_cast<typename BitViewType::ValueType>(value) <
-             ((static_cast<typename BitViewType::ValueType>(1)
-               << (Parameters::kBits - 1))
-              << 1))) &&
+    //
+    // For enums with a signed underlying type, the field holds a 2's-complement
+    // value, just like an Int of the same size, so the value must instead be
+    // in the range [-2**(field size in bits - 1), 2**(field size in bits - 1)).
+    return (::std::is_signed<UnderlyingType>::value
+                ? FitsInSignedField(static_cast<UnderlyingType>(value))
+                : (value ==
+                       static_cast<ValueType>(
+                           static_cast<typename BitViewType::ValueType>(
+                               value)) &&
+                   ((Parameters::kBits ==
+                     sizeof(typename BitViewType::ValueType) * 8) ||
+                    (static_cast<typename BitViewType::ValueType>(value) <
+                     ((static_cast<typename BitViewType::ValueType>(1)
+                       << (Parameters::kBits - 1))
+                      << 1))))) &&
            Parameters::ValueIsOk(value);
   }
   void UncheckedWrite(ValueType value) const {
-    buffer_.UncheckedWriteUInt(
-        static_cast<typename BitViewType::ValueType>(value));
+    buffer_.UncheckedWriteUInt(::emboss::support::MaskToNBits(
+        static_cast<typename BitViewType::ValueType>(value),
+        Parameters::kBits));
   }
 
   template <typename OtherView>
@@ -150,6 +163,42 @@ class EnumView final {
   static constexpr int SizeInBits() { return Parameters::kBits; }
 
  private:
+  using UnderlyingType = typename ::std::underlying_type<ValueType>::type;
+  using UnsignedUnderlyingType =
+      typename ::std::make_unsigned<UnderlyingType>::type;
+
+  // Returns true if value fits in a kBits-bit 2's-complement field.  The
+  // comparison is done on value + 2**(kBits - 1), in unsigned arithmetic, so
+  // that it cannot overflow.
+  static constexpr bool FitsInSignedField(UnderlyingType value) {
+    return Parameters::kBits >= 64 ||
+           static_cast</**/ ::std::uint64_t>(
+               static_cast</**/ ::std::int64_t>(value)) +
+                   (static_cast</**/ ::std::uint64_t>(1)
+                    << (Parameters::kBits >= 64 ? 0 : Parameters::kBits - 1)) <
+               (static_cast</**/ ::std::uint64_t>(1)
+                << (Parameters::kBits >= 64 ? 0 : Parameters::kBits));
+  }
+
+  // Converts the raw bits of the field to the enum type.  Enums are read the
+  // same way as UInt or Int: if the underlying type is signed, the field is a
+  // kBits-bit 2's-complement value, and must be sign extended.
+  static ValueType ConvertToEnum(typename BitViewType::ValueType data) {
+    return static_cast<ValueType>(static_cast<UnderlyingType>(
+        (::std::is_signed<UnderlyingType>::value &&
+         Parameters::kBits < sizeof(UnderlyingType) * 8 &&
+         ((data >> (Parameters::kBits - 1)) & 1))
+            ? static_cast<UnsignedUnderlyingType>(
+                  static_cast<UnsignedUnderlyingType>(data) |
+                  static_cast<UnsignedUnderlyingType>(
+                      static_cast<UnsignedUnderlyingType>(
+                          ~static_cast<UnsignedUnderlyingType>(0))
+                      << (Parameters::kBits < sizeof(UnderlyingType) * 8
+                              ? Parameters::kBits
+                              : 0)))
+            : static_cast<UnsignedUnderlyingType>(data)));
+  }
+
   BitViewType buffer_;
 };
 
